@@ -117,7 +117,10 @@ pub mod model_collections {
             while i < CAP {
                 if !self.slots[i].is_null() {
                     let n = self.node(i);
-                    if n.hash == hq && n.key.borrow() == q { return Some(i); }
+                    // adversarial mode: hash collisions between different keys are legal in any hash table, so
+                    // equality alone must be able to tell keys apart (a too-weak Eq then finds a foreign entry)
+                    let same_hash = n.hash == hq || (unsafe { MODEL_MAP_ADVERSARIAL } && kani::any::<bool>());
+                    if same_hash && n.key.borrow() == q { return Some(i); }
                 }
                 i += 1;
             }
